@@ -191,11 +191,11 @@ Section Machine.
     | Some [] => SOut OutOfFuel calls
     end.
 
-  (* outcome of a call into hole h by [cur], whose top frame KHoleRecv x h has been removed in k' *)
+  (* outcome of a call into hole h by [cur]; k' = the frames of [cur] below its KHoleRecv x h frame *)
   Definition hole_outcome (o : outcome P) (x : option var) (h : nat) (cur : act) (k' : list frame)
              (rest : list act) (hs : list (hole_state P)) (calls : list call) : sres :=
     match o with
-    | Yielded m p' => do_yield m (cur :: rest) (set_hole h (HLive p') hs) calls
+    | Yielded m p' => do_yield m (set_k cur (KHoleRecv x h :: k') :: rest) (set_hole h (HLive p') hs) calls
     | Returned v =>
         SCont (Done CNormal) (mkAct k' (set_opt x v (a_env cur)) (a_closing cur)) rest (set_hole h HDead hs) calls
     | Raised e => SCont (Done (CExc e)) (set_k cur k') rest (set_hole h HDead hs) calls
